@@ -65,18 +65,9 @@ static inline void verif_free(void *p)
  *      (VG_C - VG_C0) * B + offset == VG_O0 + VG_GP
  * in 128-bit arithmetic (B = batch bytes for the SIMD back ends, counting batches).
  * ====================================================================== */
-typedef unsigned __int128 vu128;
 static vu128 VG_C, VG_C0, VG_EBLK;
 static size_t VG_GP, VG_O0, VG_V0;
 static uint8_t *VG_OUT; static const uint8_t *VG_IN; static const uint8_t *VG_KS;
-#define VBE128(p) \
-    (((vu128)(p)[0] << 120) | ((vu128)(p)[1] << 112) | ((vu128)(p)[2] << 104) | ((vu128)(p)[3] << 96) | \
-     ((vu128)(p)[4] << 88) | ((vu128)(p)[5] << 80) | ((vu128)(p)[6] << 72) | ((vu128)(p)[7] << 64) | \
-     ((vu128)(p)[8] << 56) | ((vu128)(p)[9] << 48) | ((vu128)(p)[10] << 40) | ((vu128)(p)[11] << 32) | \
-     ((vu128)(p)[12] << 24) | ((vu128)(p)[13] << 16) | ((vu128)(p)[14] << 8) | (vu128)(p)[15])
-#define VBE64(p) \
-    (((vu128)(p)[0] << 56) | ((vu128)(p)[1] << 48) | ((vu128)(p)[2] << 40) | ((vu128)(p)[3] << 32) | \
-     ((vu128)(p)[4] << 24) | ((vu128)(p)[5] << 16) | ((vu128)(p)[6] << 8) | (vu128)(p)[7])
 #define VERIF_MAX_DATA ((size_t)1 << 40)
 
 /* role contract of a data xor inside a CTR encrypt loop: n bytes at data position VG_GP, keystream
@@ -87,7 +78,7 @@ static uint8_t *VG_OUT; static const uint8_t *VG_IN; static const uint8_t *VG_KS
     __CPROVER_requires((const uint8_t *)(ksp) >= VG_KS && (size_t)((const uint8_t *)(ksp) - VG_KS) + (n) <= (BATCH)) \
     __CPROVER_requires((VG_EBLK - (VG_C0 - 1)) * (BATCH) + (vu128)((const uint8_t *)(ksp) - VG_KS) == (vu128)VG_O0 + VG_GP) \
     __CPROVER_requires((VG_EBLK - (VG_C0 - 1)) <= (VG_GP / (BATCH)) + 1) \
-    __CPROVER_assigns(__CPROVER_object_upto((uint8_t *)(outp), (n)), VG_GP) \
+    __CPROVER_assigns(VG_GP) /* the write to [outp, outp+n) is abstracted: its extent is asserted above, its content is irrelevant here */ \
     __CPROVER_ensures(VG_GP == __CPROVER_old(VG_GP) + (n))
 
 #endif
